@@ -1026,6 +1026,9 @@ type swamp struct {
 	updateTimeBeaconASC      beacon.Beacon // ordered list of the Treasures by the ascendant UpdatedAt field
 	updateTimeBeaconDESC     beacon.Beacon // ordered list of the Treasures by the descendant UpdatedAt field
 
+	// valueBeaconType is the value type the value beacons were built (sorted)
+	// for; incremental inserts have to sort with the same comparator.
+	valueBeaconType int32
 	valueBeaconASC  beacon.Beacon // ordered list of the Treasures by the ascendant Value field
 	valueBeaconDESC beacon.Beacon // ordered list of the Treasures by the descendant Value field
 
@@ -2208,15 +2211,37 @@ func (s *swamp) SaveFunction(t treasure.Treasure, guardID guard.ID) treasure.Tre
 			if t.GetContentType() != treasure.ContentTypeVoid {
 				s.addTreasureToBeacons(t)
 			}
-		} else if t.IsExpirationTimeChanged() {
-			// ExpirationTime moved (e.g. via PatchTreasures meta). Refresh
-			// only the expiration-time beacon: drop the stale entry and
-			// re-add it under the new sort key — unless the new value is 0
-			// ("never expires"), in which case leave it removed.
-			s.deleteTreasureIfBeaconInitialized(s.expirationTimeBeaconASC, t.GetKey())
-			s.deleteTreasureIfBeaconInitialized(s.expirationTimeBeaconDESC, t.GetKey())
-			if t.GetExpirationTime() != 0 {
-				s.addToExpirationTimeBeacon(t)
+		} else {
+			// A record whose sort attribute moved has to move inside the index
+			// that is ordered by that attribute, otherwise ordered reads - and the
+			// binary search behind time windows - work on a list that is no longer
+			// sorted. Drop the stale entry and re-add it under the new sort key
+			// (the add re-sorts); a time of 0 means "does not carry the attribute".
+			if t.IsExpirationTimeChanged() {
+				s.deleteTreasureIfBeaconInitialized(s.expirationTimeBeaconASC, t.GetKey())
+				s.deleteTreasureIfBeaconInitialized(s.expirationTimeBeaconDESC, t.GetKey())
+				if t.GetExpirationTime() != 0 {
+					s.addToExpirationTimeBeacon(t)
+				}
+			}
+			if t.IsCreatedAtChanged() {
+				s.deleteTreasureIfBeaconInitialized(s.creationTimeBeaconASC, t.GetKey())
+				s.deleteTreasureIfBeaconInitialized(s.creationTimeBeaconDESC, t.GetKey())
+				if t.GetCreatedAt() != 0 {
+					s.addToCreationTimeBeacon(t)
+				}
+			}
+			if t.IsModifiedAtChanged() {
+				s.deleteTreasureIfBeaconInitialized(s.updateTimeBeaconASC, t.GetKey())
+				s.deleteTreasureIfBeaconInitialized(s.updateTimeBeaconDESC, t.GetKey())
+				if t.GetModifiedAt() != 0 {
+					s.addToUpdateTimeBeacon(t)
+				}
+			}
+			if t.IsContentChanged() {
+				s.deleteTreasureIfBeaconInitialized(s.valueBeaconASC, t.GetKey())
+				s.deleteTreasureIfBeaconInitialized(s.valueBeaconDESC, t.GetKey())
+				s.addToValueBeacon(t)
 			}
 		}
 
@@ -3090,6 +3115,9 @@ func (s *swamp) findInExpirationTimeBeacon(order BeaconOrder, from int32, limit 
 // findInValueBeacon - find the treasures in the valueIntBeaconASC or valueIntBeaconDESC slice
 // Build the two indexes if they are not exists or the indexes are empty
 func (s *swamp) findInValueBeacon(order BeaconOrder, bc BeaconType, from int32, limit int32) ([]treasure.Treasure, error) {
+	if !s.valueBeaconASC.IsInitialized() {
+		atomic.StoreInt32(&s.valueBeaconType, int32(bc))
+	}
 	s.buildBeacon(s.valueBeaconASC, s.valueBeaconDESC, bc)
 	switch order {
 	case IndexOrderAsc:
@@ -3326,14 +3354,44 @@ func (s *swamp) addToValueBeacon(treasureInterface treasure.Treasure) {
 		return
 	}
 	s.valueBeaconASC.Add(treasureInterface)
-	err := s.valueBeaconASC.SortByValueInt64ASC()
-	if err != nil {
-		slog.Error("failed to sort valueIntBeaconASC", "error", err)
-	}
 	s.valueBeaconDESC.Add(treasureInterface)
-	err = s.valueBeaconDESC.SortByValueInt64DESC()
-	if err != nil {
-		slog.Error("failed to sort valueIntBeaconDESC", "error", err)
+	s.sortValueBeacons()
+}
+
+// sortValueBeacons re-sorts the value beacons with the comparator of the value
+// type they were built for (they used to be re-sorted as int64 whatever the
+// type, which scrambled float, string and unsigned orders on the first insert).
+func (s *swamp) sortValueBeacons() {
+	var errAsc, errDesc error
+	switch BeaconType(atomic.LoadInt32(&s.valueBeaconType)) {
+	case BeaconTypeValueUint8:
+		errAsc, errDesc = s.valueBeaconASC.SortByValueUint8ASC(), s.valueBeaconDESC.SortByValueUint8DESC()
+	case BeaconTypeValueUint16:
+		errAsc, errDesc = s.valueBeaconASC.SortByValueUint16ASC(), s.valueBeaconDESC.SortByValueUint16DESC()
+	case BeaconTypeValueUint32:
+		errAsc, errDesc = s.valueBeaconASC.SortByValueUint32ASC(), s.valueBeaconDESC.SortByValueUint32DESC()
+	case BeaconTypeValueUint64:
+		errAsc, errDesc = s.valueBeaconASC.SortByValueUint64ASC(), s.valueBeaconDESC.SortByValueUint64DESC()
+	case BeaconTypeValueInt8:
+		errAsc, errDesc = s.valueBeaconASC.SortByValueInt8ASC(), s.valueBeaconDESC.SortByValueInt8DESC()
+	case BeaconTypeValueInt16:
+		errAsc, errDesc = s.valueBeaconASC.SortByValueInt16ASC(), s.valueBeaconDESC.SortByValueInt16DESC()
+	case BeaconTypeValueInt32:
+		errAsc, errDesc = s.valueBeaconASC.SortByValueInt32ASC(), s.valueBeaconDESC.SortByValueInt32DESC()
+	case BeaconTypeValueFloat32:
+		errAsc, errDesc = s.valueBeaconASC.SortByValueFloat32ASC(), s.valueBeaconDESC.SortByValueFloat32DESC()
+	case BeaconTypeValueFloat64:
+		errAsc, errDesc = s.valueBeaconASC.SortByValueFloat64ASC(), s.valueBeaconDESC.SortByValueFloat64DESC()
+	case BeaconTypeValueString:
+		errAsc, errDesc = s.valueBeaconASC.SortByValueStringASC(), s.valueBeaconDESC.SortByValueStringDESC()
+	default:
+		errAsc, errDesc = s.valueBeaconASC.SortByValueInt64ASC(), s.valueBeaconDESC.SortByValueInt64DESC()
+	}
+	if errAsc != nil {
+		slog.Error("failed to sort valueBeaconASC", "error", errAsc)
+	}
+	if errDesc != nil {
+		slog.Error("failed to sort valueBeaconDESC", "error", errDesc)
 	}
 }
 
